@@ -643,6 +643,131 @@ theorem sim_round_order_independent (le : Nat → Nat → Bool) (hle : TotalOrde
   simp only [getKeysInBuckets_sorted_perm hle H depth limit _ ha h1 h1',
     getKeysInBuckets_sorted_perm hle H depth limit _ hb h2 h2']
 
+/-! ## one bucket function for the digest, the divergent-bucket list and both key filters -/
+
+/-- **C18 (digest and filters bucket a key identically)** — the model of the current code, every
+    depth, every iteration order: for an entry `(k, v)` of the state and `b = bucketOf depth
+    (KeyDigest::new k v)`,
+    * `b` is a valid bucket index of the digest (`b < 2^depth = |buckets|`),
+    * `from_state` files the key's digest under bucket `b` and under no other bucket,
+    * the simulator-path filter (`get_keys_in_buckets`, any arrangement, limit not binding) selects
+      the entry iff `b` is among the requested buckets, and
+    * so does the message-path filter (`handle_sync_request`). -/
+theorem digest_and_filter_use_same_bucket_function (H : Hasher) (sb : Bool) (vs : ValueStream)
+    (depth : Nat) (π : List Nat) (s : NMap RV) (k : Nat) (v : RV) (hs : NMap.WF s) (hπ : ValidOrder π s)
+    (hget : NMap.get s k = some v) :
+    bucketOf depth (keyDigest H vs k v) < (fromState H sb vs depth π s).buckets.length
+    ∧ keyDigest H vs k v ∈ bucketDigests H vs depth π s (bucketOf depth (keyDigest H vs k v))
+    ∧ (∀ b', keyDigest H vs k v ∈ bucketDigests H vs depth π s b' → b' = bucketOf depth (keyDigest H vs k v))
+    ∧ (∀ (arr : Arrange) (limit : Nat) (buckets : List Nat), ArrOK arr →
+        (candidates H depth π s buckets).length ≤ limit →
+        ((getKeysInBuckets arr H vs depth limit π s buckets).lookup k
+          = if buckets.contains (bucketOf depth (keyDigest H vs k v)) then some v else none))
+    ∧ (∀ (limit : Nat) (buckets : List Nat), (candidates H depth π s buckets).length ≤ limit →
+        ((responseKeysWith .filterThenTake H vs depth limit π s (some buckets)).lookup k
+          = if buckets.contains (bucketOf depth (keyDigest H vs k v)) then some v else none)) := by
+  have hmem : (k, v) ∈ iter π s := by
+    have hp := iter_valid_perm hs hπ
+    exact hp.symm.subset (Crdt.mem_of_get hget)
+  refine ⟨?_, ?_, ?_, ?_, ?_⟩
+  · rw [fromState_buckets_length]
+    exact Nat.mod_lt _ (Nat.two_pow_pos depth)
+  · unfold bucketDigests
+    rw [List.mem_filter]
+    exact ⟨List.mem_map.mpr ⟨(k, v), hmem, rfl⟩, by simp⟩
+  · intro b' hb'
+    unfold bucketDigests at hb'
+    rw [List.mem_filter] at hb'
+    exact (beq_iff_eq.mp hb'.2).symm
+  · intro arr limit buckets harr hl
+    rw [getKeysInBuckets_full harr hl,
+      lookup_perm_of_nodup (harr _) ((((harr (candidates H depth π s buckets)).map (·.1)).nodup_iff).mpr (candidates_keys_nodup buckets hs hπ)),
+      lookup_candidates buckets hs hπ k, hget]
+    rfl
+  · intro limit buckets hl
+    rw [response_exact_when_under_limit H vs depth limit π s buckets hs hπ hl k, hget]
+    rfl
+
+/-- … consequently a key on which two replicas differ lies in a bucket that is reported
+    divergent AND requested AND answered: after one pull the requester holds the merge for it
+    (ideal hash, limit not binding) -/
+theorem differing_key_is_delivered (H : Hasher) (sb : Bool) (vs : ValueStream) (depth limit : Nat)
+    (πr πp : List Nat) (r p : NMap RV) (k : Nat) (hI : Ideal H) (hvs : StreamOK vs)
+    (hr : NMap.WF r) (hp : NMap.WF p) (hπr : ValidOrder πr r) (hπp : ValidOrder πp p)
+    (hne : (NMap.get r k).map vs ≠ (NMap.get p k).map vs)
+    (hl : (candidates H depth πp p (divergentBuckets (fromState H sb vs depth πr r) (fromState H sb vs depth πp p))).length ≤ limit) :
+    NMap.get (pullWith .filterThenTake H sb vs depth limit false πr πp r p).2.2.2 k
+      = optMerge RV.merge (NMap.get r k) (NMap.get p k) := by
+  have hlt : H.key k % 2 ^ depth < 2 ^ depth := Nat.mod_lt _ (Nat.two_pow_pos depth)
+  have hpb : projBucket H vs depth (H.key k % 2 ^ depth) r ≠ projBucket H vs depth (H.key k % 2 ^ depth) p := by
+    intro h
+    have := congrArg (fun m => NMap.get m k) h
+    simp only [get_projBucket, beq_self_eq_true, if_true] at this
+    exact hne this
+  have hdiv := divergent_buckets_complete sb H vs depth πr πp r p _ hI hvs hr hp hπr hπp hlt hpb
+  have hd : differsFrom (fromState H sb vs depth πr r) (fromState H sb vs depth πp p) = true := by
+    cases hdf : differsFrom (fromState H sb vs depth πr r) (fromState H sb vs depth πp p) with
+    | true => rfl
+    | false =>
+      exfalso
+      have hproj := digest_never_false_in_sync_wrt_proj sb H vs depth πr πp r p hI hvs hr hp hπr hπp hdf
+      apply hne
+      rw [← get_proj, ← get_proj, hproj]
+  rw [sync_round_merges H sb vs depth limit πr πp r p hp hπp hd hl k]
+  rw [if_pos (List.contains_iff_mem.mpr hdiv)]
+
+def clampR : NMap RV := [(1, exX), (2, exX), (3, exY), (4, exX)]
+def clampP : NMap RV := [(1, exX), (2, exX), (3, exY'), (4, exX)]
+
+/-- **a digest-side depth clamp breaks the exchange** (the seeded defect class, scaled down:
+    configured depth 2, digest clamped to depth 1).  Key 3 differs; the clamped digest reports
+    bucket 1 (= 3 mod 2), the filter — still at depth 2 — answers the keys with `k mod 4 = 1`,
+    i.e. key 1: key 3 is never sent, the requester's state does not change, the digests differ
+    for ever.  Without the clamp bucket 3 is reported and key 3 is merged. -/
+theorem digest_side_clamp_counterexample :
+    (pullClamped (some 1) idealH true canonicalStream 2 1000 (NMap.keys clampR) (NMap.keys clampP) clampR clampP).1 = true
+    ∧ (pullClamped (some 1) idealH true canonicalStream 2 1000 (NMap.keys clampR) (NMap.keys clampP) clampR clampP).2.1 = [1]
+    ∧ (pullClamped (some 1) idealH true canonicalStream 2 1000 (NMap.keys clampR) (NMap.keys clampP) clampR clampP).2.2.2 = clampR
+    ∧ (pullClamped none idealH true canonicalStream 2 1000 (NMap.keys clampR) (NMap.keys clampP) clampR clampP).2.1 = [3]
+    ∧ (pullClamped none idealH true canonicalStream 2 1000 (NMap.keys clampR) (NMap.keys clampP) clampR clampP).2.2.2 = clampP := by
+  decide
+
+/-- without a clamp `pullClamped` IS the pull of the current tree -/
+theorem pullClamped_none (H : Hasher) (sb : Bool) (vs : ValueStream) (depth limit : Nat)
+    (πr πp : List Nat) (r p : NMap RV) :
+    pullClamped none H sb vs depth limit πr πp r p = pullWith .filterThenTake H sb vs depth limit false πr πp r p := rfl
+
+/-! ## configuration extremes -/
+
+/-- **`max_keys_per_sync = 0`**: no exchange ever sends anything — simulator path and message
+    path, bucket or full-state request: the states never change (starvation by configuration) -/
+theorem sync_limit_zero_never_progresses (arr : Arrange) (ord : RespOrder) (H : Hasher) (sb : Bool)
+    (vs : ValueStream) (depth : Nat) (full : Bool) (πa πb : List Nat) (a b : NMap RV) :
+    syncRoundWith arr H sb vs depth 0 πa πb a b = (a, b)
+    ∧ (pullWith ord H sb vs depth 0 full πa πb a b).2.2.2 = a := by
+  constructor
+  · unfold syncRoundWith exchange getKeysInBuckets
+    simp only [List.take_zero, applyDeltas, List.foldl_nil]
+    repeat' split
+    all_goals rfl
+  · have hresp : ∀ req, responseKeysWith ord H vs depth 0 πb b req = [] := by
+      intro req
+      cases req <;> cases ord <;> simp [responseKeysWith]
+    unfold pullWith
+    simp only [hresp, applyDeltas, List.foldl_nil]
+    split <;> rfl
+
+/-- `merkle_tree_depth` is an unvalidated `usize`: depths 59–63 make `generate_digest` panic
+    ("capacity overflow"); depth ≥ 64 panics on the shift with overflow checks and wraps to
+    `depth mod 64` without them -/
+theorem digest_alloc_extremes :
+    digestAlloc true 16 = .buckets 65536 ∧ digestAlloc true 20 = .buckets 1048576
+    ∧ digestAlloc true 58 = .buckets (2 ^ 58)
+    ∧ digestAlloc true 59 = .capacityOverflowPanic ∧ digestAlloc false 63 = .capacityOverflowPanic
+    ∧ digestAlloc true 64 = .shiftOverflowPanic ∧ digestAlloc false 64 = .buckets 1
+    ∧ digestAlloc false 65 = .buckets 2 := by
+  decide
+
 /-! ## non-vacuity -/
 
 -- the hypotheses of the theorems above are satisfiable by non-trivial values
